@@ -1084,14 +1084,18 @@ Qed.
 
 Lemma run_cert2_coherent cs h : forall st, run_cert2 cs h (st, st) = (run_cert cs h st, run_cert cs h st).
 Proof.
-  induction h as [|e h IH]; intros st; [reflexivity|]. cbn.
-  unfold step_cert2 at 1. cbn [fst snd]. rewrite sync_cert2_coherent. apply IH.
+  induction h as [|e h IH]; intros st; [reflexivity|].
+  change (run_cert2 cs (e :: h) (st, st)) with (run_cert2 cs h (step_cert2 cs (st, st) e)).
+  change (run_cert cs (e :: h) st) with (run_cert cs h (step_cert cs st e)).
+  unfold step_cert2, step_cert. cbn [fst snd]. rewrite sync_cert2_coherent. apply IH.
 Qed.
 
 Lemma run_dns2_coherent h : forall st, run_dns2 h (st, st) = (run_dns h st, run_dns h st).
 Proof.
-  induction h as [|e h IH]; intros st; [reflexivity|]. cbn.
-  unfold step_dns2 at 1. cbn [fst snd]. rewrite sync_dns2_coherent. apply IH.
+  induction h as [|e h IH]; intros st; [reflexivity|].
+  change (run_dns2 (e :: h) (st, st)) with (run_dns2 h (step_dns2 (st, st) e)).
+  change (run_dns (e :: h) st) with (run_dns h (step_dns st e)).
+  unfold step_dns2, step_dns. cbn [fst snd]. rewrite sync_dns2_coherent. apply IH.
 Qed.
 
 Theorem lister_reflects_cluster :
